@@ -376,7 +376,15 @@ def sim_names(case):
 class P(Prop):
     id = "C01"
     design_ref = "DESIGN.md section 5, C01"
-    theorems = []
+    theorems = [
+        ("TracklibVerif.Props.C01", "TV.C01.inv_fresh", "a fresh track is aligned"),
+        ("TracklibVerif.Props.C01", "TV.C01.inv_step", "every API call (returning or raising) keeps the table aligned: one value per listed name in every observation, distinct names, dict = enumeration of the names"),
+        ("TracklibVerif.Props.C01", "TV.C01.step_refines", "on an aligned table every API call does exactly what it does on the name -> column specification table (same outcome, corresponding tables)"),
+        ("TracklibVerif.Props.C01", "TV.C01.history_aligned", "every state along every finite history is aligned"),
+        ("TracklibVerif.Props.C01", "TV.C01.history_refines", "along every finite history outcomes equal the specification's and the tables correspond after every call"),
+        ("TracklibVerif.Props.C01", "TV.C01.run_refines", "the final state of every finite history is aligned and corresponds to the specification's"),
+        ("TracklibVerif.Props.C01", "TV.C01.no_temporaries", "after operate(str) no listed name starts with '#', whether evaluation returned or raised"),
+    ]
     partial = []
     open_statements = []
     modelled = ("Track.createAnalyticalFeature / updateAnalyticalFeature / removeAnalyticalFeature / getAnalyticalFeature / "
